@@ -362,6 +362,7 @@ class Evaluator:
         self.notes: list[str] = []  # why something became POISON (diagnostics)
         self._cur_gen: EvalGen | None = None  # the generator whose body is being evaluated (None: ordinary code)
         self._gens: list[EvalGen] = []
+        self.created: list[Obj] = []  # every object of a class of the analysed code that was constructed (rules may look them up by class)
         self.uncertain_exits = 0  # undetermined branches that may have left a function / loop (what ran afterwards is not certain)
 
     # ------------------------------------------------------------------ helpers
@@ -1560,6 +1561,7 @@ class Evaluator:
         if ci.fq in self.intercept:
             return self.intercept[ci.fq](args, kwargs, self.uncertain)
         o = Obj(ci)
+        self.created.append(o)
         init = self.repo.lookup_method(ci, "__init__")
         if init is not None:
             self.call_function(init, args, kwargs, o)
